@@ -228,11 +228,15 @@ class P(Prop):
             self.fail("search", "avg_sensitivity", f"avg_sensitivity({nd}) = {r if o == 'ok' else o} != {sum(want_inf.values())}", case)
 
     def search(self, n):
+        # call history: population counters obtained and edited by the caller earlier must not leak into the transforms
+        gen.poison_generators(self.rng, widths=(1, 2, 3, 4, 5, 6))
+        self.stats.bump("history:poisoned-generator-results")
         for i in range(n):
             c = self.gen_case()
             nodes = sorted(c.graph.nodes)
             for nd in self.rng.sample(nodes, min(3, len(nodes))):
                 self.oracle(c, nd)
+                self.again_after_edit(c, lambda: self.oracle(c, nd), p=0.15, exclude=("relabel",))
             if self.too_many():
                 break
 
